@@ -1,6 +1,6 @@
 (* C07 - Seal then unseal is lossless for every token, key algorithm and codec. *)
 From Coq Require Import String.
-Require Import Base Node Cbor CborProofs Did DidProofs Generated Envelope Token TokenProofs SealProofs.
+Require Import Base Node Cbor CborProofs Did DidProofs Generated Policy PolicyIpld Envelope Token TokenProofs SealProofs.
 Local Open Scope N_scope.
 
 (* go-ucan's own mapping: token -> payload node -> token is the identity on everything a constructor
@@ -12,6 +12,15 @@ Print Assumptions C07_delegation_payload_roundtrip.
 Theorem C07_invocation_payload_roundtrip : forall t, inv_constructed t -> inv_from_payload (inv_to_payload t) = Ok t.
 Proof. exact inv_payload_roundtrip. Qed.
 Print Assumptions C07_invocation_payload_roundtrip.
+
+(* what a constructor returns meets that premise, for DIDs that came out of the DID package and policy
+   statements that came out of the policy constructors or decoder *)
+Theorem C07_constructor_output_is_sealable : forall iss aud sub cmd pol ng r12 meta nbf exp t,
+  dlg_new iss aud sub cmd pol ng r12 meta nbf exp = Ok t ->
+  did_ok iss -> did_ok aud -> match sub with Some d => did_ok d | None => True end ->
+  Forall wf_stmt pol -> no_null_values meta = true -> dlg_constructed t.
+Proof. exact dlg_new_constructed. Qed.
+Print Assumptions C07_constructor_output_is_sealable.
 
 (* through the envelope, for any signature scheme whose signatures verify under the issuer's key *)
 Theorem C07_delegation_seal_unseal : forall verify header_of sign t hdr,
